@@ -79,13 +79,15 @@ def run(name, budget):
         shutil.copytree('/repo/billiard', os.path.join(d, 'billiard'),
                         ignore=shutil.ignore_patterns('__pycache__'))
         if rel == 'REVERT':
-            # undo one of our own "fix:" commits (saved diff, reverse-applied): the defect must come back
-            for commit in old:
-                diff = os.path.join(VERIF, 'selftest', 'reverts', commit + '.diff')
-                r = subprocess.run(['patch', '-R', '-p1', '-s', '-d', d, '-i', diff], capture_output=True, text=True)
-                if r.returncode != 0:
-                    return name, prop, 'NOT-APPLICABLE (reverse patch %s does not apply: %s)' % (
-                        commit, r.stdout.strip()[:120])
+            # undo one of our own "fix:" commits: the defect must come back.  selftest/mkreverts.py keeps a
+            # forward patch per entry (git revert on top of the current HEAD, merged three-way)
+            patch = os.path.join(VERIF, 'selftest', 'reverts', name + '.patch')
+            if not os.path.exists(patch):
+                return name, prop, 'NOT-APPLICABLE (no %s; run selftest/mkreverts.py)' % os.path.basename(patch)
+            r = subprocess.run(['patch', '-p1', '-s', '-d', d, '-i', patch], capture_output=True, text=True)
+            if r.returncode != 0:
+                return name, prop, 'NOT-APPLICABLE (%s does not apply; run selftest/mkreverts.py: %s)' % (
+                    os.path.basename(patch), r.stdout.strip()[:120])
             p = os.path.join(d, 'billiard', 'pool.py')
         else:
             p = os.path.join(d, rel)
